@@ -22,7 +22,7 @@ from vk.specs import chain as S
 from vk.specs import c17 as F
 from vk.specs import universe as U
 
-LEVEL = "exploration"
+LEVEL = "other"
 TECHNIQUE = ("contracts evaluated at run time on the real functions over bounded-exhaustive inputs "
              "(bounded stand-in; nothing counted as proved)")
 
